@@ -11,6 +11,7 @@
 -/
 import Ladybug.Proofs.C04Lemmas
 import Ladybug.Proofs.C04Listings
+import Ladybug.Proofs.C04Order
 
 open Cal
 
@@ -205,5 +206,73 @@ example : fromTokens ((⟨6, 21, 22, 3, 20, 5, 4, true⟩ : AP).reprTokens.map f
 
 -- character level (evaluated, not kernel-checked: `String` functions do not reduce in the kernel)
 #guard fromString (⟨6, 21, 22, 3, 20, 5, 4, true⟩ : AP).repr = .ok ⟨6, 21, 22, 3, 20, 5, 4, true⟩
+
+/-! ### Round 2: list order of the listings, exact image of months_per_hour, non-emptiness -/
+
+/-- **The enumeration is never empty and starts at the start moment**: `moys` begins with the
+    start moment `st_time.moy`, hence `moys ≠ []` and `len() > 0` for every period. -/
+theorem C04_nonempty (ap : AP) (hwf : ap.WF) :
+    ap.moys.head? = some ap.stMoy ∧ ap.stMoy ∈ ap.moys ∧ ap.moys ≠ [] ∧ 0 < ap.len := by
+  have hmem := stMoy_mem_moys ap hwf
+  have hne : ap.moys ≠ [] := List.ne_nil_of_mem hmem
+  refine ⟨moys_head ap hwf, hmem, hne, ?_⟩
+  rw [C04_len ap hwf]
+  exact List.length_pos_iff.mpr hne
+
+/-- **`doys_int` in list order** – the "listings agree with that one enumeration" clause at full
+    strength for days: the listing *is* the enumeration's days of the year with immediate
+    repetitions removed (`dedupAdj`), in the enumeration's order.  This includes wrapping periods
+    (`…, 365, 1, …`), and wrapping periods that start and end on the same day, where that day stands
+    at both ends of the listing because the enumeration visits it twice. -/
+theorem C04_doys_order (ap : AP) (hwf : ap.WF) :
+    ap.doysInt = dedupAdj (ap.moys.map fun m => m / 1440 + 1) :=
+  doys_eq_dedup ap hwf
+
+example : (⟨12, 30, 22, 1, 2, 5, 1, true⟩ : AP).WF ∧
+    (⟨12, 30, 22, 1, 2, 5, 1, true⟩ : AP).doysInt = [365, 366, 1, 2] := by decide
+
+/-- **`months_int` in list order**: the listing is the sequence of months of the enumerated steps
+    (`monthOf` = month of `DateTime.from_moy`) with immediate repetitions removed, in the
+    enumeration's order – including wrapping periods whose start and end month coincide, where that
+    month stands at both ends. -/
+theorem C04_months_order (ap : AP) (hwf : ap.WF) :
+    ap.monthsInt = dedupAdj (ap.moys.map (monthOf ap.leap)) :=
+  months_eq_dedup ap hwf
+
+example : (⟨1, 31, 22, 1, 1, 2, 1, false⟩ : AP).WF ∧
+    (⟨1, 31, 22, 1, 1, 2, 1, false⟩ : AP).monthsInt = [1, 2, 3, 4, 5, 6, 7, 8, 9, 10, 11, 12, 1] := by decide
+
+/-- **`months_per_hour` is exactly the image of the enumeration** under
+    step ↦ (month, hour, minute) – as a set – whenever every listed month contains a whole day of the
+    period (`wholeDayIn`: some day of the month lies with all its minutes between the start moment
+    and the end of the end hour, cyclically for wrapping periods).  Outside this hypothesis only
+    `C04_months_per_hour_complete` (⊇) and `C04_months_per_hour_sound` hold; the witnesses of
+    `C04_months_per_hour_product_partial` show the image form fails there. -/
+theorem C04_months_per_hour_image (ap : AP) (hwf : ap.WF)
+    (hall : ∀ mo ∈ ap.monthsInt, ap.wholeDayIn mo) (t : Nat × Nat × Nat) :
+    t ∈ ap.monthsPerHour ↔
+      ∃ m ∈ ap.moys, ∃ d, fromMoy ap.leap m = .ok d ∧ (d.month, d.hour, d.minute) = t :=
+  mph_image ap hwf hall t
+
+/-- non-vacuity: the annual period has a whole day in every month (day 1 of the month) -/
+example : ∀ mo ∈ (annual true 4).monthsInt, (annual true 4).wholeDayIn mo := by
+  intro mo hmo
+  have h : 1 ≤ mo ∧ mo ≤ 12 := by
+    rcases (mem_monthsInt _ mo).mp hmo with ⟨_, h1, h2⟩ | ⟨h, _⟩
+    · exact ⟨h1, h2⟩
+    · exact absurd h (by decide)
+  have key : ∀ k : Fin 13, 1 ≤ k.val → (annual true 4).wholeDayIn k.val := by
+    intro k hk
+    refine ⟨1, Nat.le_refl 1, monthLen_pos true k.val hk (by omega), Or.inl ?_⟩
+    revert k
+    decide
+  exact key ⟨mo, by omega⟩ h.1
+
+/- Character-level `__repr__` / `from_string` round trip: NOT proved and not provable by a finite
+   check here.  `String.replace`, `String.splitOn` and `String.toInt?` (used by the frozen
+   `AP.fromString`) do not reduce in the kernel of this Lean version (`decide`, `decide +kernel` and
+   `rfl` all fail already on `"a to b".replace "to" " " = "a   b"`), and core has no lemma library
+   about them.  The token-level theorem `C04_repr_roundtrip_partial` stands; the character level stays
+   tied by `#guard` samples and by the correspondence ops `repr` / `from_string` on every run. -/
 
 end AP
